@@ -1027,6 +1027,10 @@ func (g *Gen) VerifyFunction(fn *ssa.Function, fc *FuncContract) error {
 		if len(c.Props) > 0 {
 			props = c.Props
 		}
+		if c.Assumed {
+			g.trusted[fmt.Sprintf("assumed postcondition [%s] of %s: %s", lbl, shortCallee(fc.Key), c.Src)] = true
+			continue
+		}
 		o := g.oblige("ensures", fr.oname("ensures", lbl), lbl, props, exitReach, t, c.Src, fn.Pos())
 		fr.addModelValues(o, env)
 	}
